@@ -132,7 +132,6 @@ for _n, _rk in ((0, 'none'), (1, 'valid'), (0, 'invalid'), (2, 'none')):
 
 # ---------------------------------------------------------------- routed swaps: hop chaining (pricing kernel abstracted)
 
-from .c12 import swap_op, route_msg
 
 ROUTES = {
     'AB_BC': [('uA', 'uB', 'p1'), ('uB', 'uC', 'p2')],
